@@ -311,6 +311,10 @@ fn run_w(case: &Value) -> Value {
                     }
                 }
             };
+            if k == "stop" && res.2.is_err() {
+                // the shutdown loop of the write task ignores failed writes
+                continue;
+            }
             if let Some(next) = h.write_done(res) {
                 writes.push(next);
             }
